@@ -68,7 +68,8 @@ inductive Stage where
   deriving DecidableEq, Repr
 
 /-- How a stage ends. `narrow` = raises the exception type its narrow handler names (LexerError /
-ParserError for parse stages, ValueError for `parse_contract_field`); `other` = raises anything else. -/
+ParserError for parse stages, ValueError for `parse_contract_field`, RecursionError for `yaml.dump` and — since repo commit
+f33b1a5 — also for the two baseline parses of octave_write); `other` = raises anything else. -/
 inductive Raise where
   | no | narrow | other
   deriving DecidableEq, Repr
@@ -524,7 +525,7 @@ def eTable (a : EArgs) (o : EOut) : List (Bool × Step) :=
     (a.format == .json && raised o.raises .e_toDictJson,         .escape .e_toDictJson),
     (a.format == .json && raised o.raises .e_jsonDumps,          .escape .e_jsonDumps),
     (a.format == .yaml && raised o.raises .e_toDictYaml,         .escape .e_toDictYaml),
-    (a.format == .yaml && raised o.raises .e_yamlDump,           .escape .e_yamlDump),
+    (a.format == .yaml && o.raises .e_yamlDump == .other,        .escape .e_yamlDump),   -- narrow: RecursionError is answered with an envelope (repo commit 0d3068d)
     (a.format == .markdown && raised o.raises .e_markdown,       .escape .e_markdown),
     (a.format == .gbnf && o.hasContract && raised o.raises .e_gbnfMeta,   .escape .e_gbnfMeta),
     (a.format == .gbnf && !o.hasContract && raised o.raises .e_extract,   .escape .e_extract),
@@ -738,7 +739,8 @@ def Stage.guard : Stage → Guard
   | .w_validatePath | .w_exists | .w_mutationsC | .w_unwrap | .w_detect | .w_curly | .w_wrapPlain | .w_salvage | .w_trackFail
   | .w_track | .w_mutations | .w_zones | .w_builtin | .w_debug | .w_validate | .w_reemit1 | .w_revalidate1 | .w_diff => .none
   | .e_parse => .exc
-  | .e_project | .e_zones | .e_toDictJson | .e_jsonDumps | .e_toDictYaml | .e_yamlDump | .e_markdown | .e_gbnfMeta
+  | .e_yamlDump => .narrow
+  | .e_project | .e_zones | .e_toDictJson | .e_jsonDumps | .e_toDictYaml | .e_markdown | .e_gbnfMeta
   | .e_extract | .e_compile => .none
   | .g_load | .g_parse | .g_compile => .exc
   | .g_contractField => .narrow
